@@ -429,3 +429,19 @@ def reduce_kwargs(cls, kw):
 
 def mk(cls, **kw):
     return cls(**reduce_kwargs(cls, kw))
+
+def apalache_inductive(module, timeout=1500):
+    """Optional extra (never decides a verdict): IndInit => IndInv at length 0 from Init and the inductive step at length 1."""
+    import shutil, subprocess, tempfile
+    out = tempfile.mkdtemp(prefix="apa-", dir=scratch())
+    res = []
+    for init, length in (("Init", 0), ("IndInit", 1)):
+        try:
+            p = subprocess.run(["apalache-mc", "check", "--cinit=CInit", "--init=" + init, "--inv=IndInv", "--length=%d" % length,
+                                "--out-dir=" + out, module], cwd=os.path.join(SPEC, "apalache"), timeout=timeout,
+                               stdout=subprocess.PIPE, stderr=subprocess.STDOUT, text=True)
+            res.append("%s/length %d: %s" % (init, length, "NoError" if "The outcome is: NoError" in p.stdout else "not discharged"))
+        except Exception as e:  # noqa
+            res.append("%s/length %d: not run (%s)" % (init, length, type(e).__name__))
+    shutil.rmtree(out, ignore_errors=True)
+    return res
